@@ -243,6 +243,8 @@ fn run_matrix(sim: &Sim, idx: u64) {
                 let mut tls = ServerTlsConfig::new().identity(Identity::from_pem(SERVER_PEM, SERVER_KEY));
                 match c.auth {
                     ClientAuth::NoAuth => {}
+                    // (sometimes as a bundle with another CA in front)
+                    ClientAuth::Required if sim.chance(1, 3) => tls = tls.client_ca_root(Certificate::from_pem(format!("{CA_A}\n{CA_C}"))),
                     ClientAuth::Required => tls = tls.client_ca_root(Certificate::from_pem(CA_C)),
                     ClientAuth::Optional => tls = tls.client_ca_root(Certificate::from_pem(CA_C)).client_auth_optional(true),
                 }
@@ -295,12 +297,14 @@ fn run_matrix(sim: &Sim, idx: u64) {
             tls = tls.assume_http2(c.assume_http2);
             // the same trust configuration through the different builder methods, roots and domain
             // in either order (all drawn)
-            let roots_variant = sim.draw(3);
+            let roots_variant = sim.draw(4);
             let apply_roots = |tls: ClientTlsConfig| -> ClientTlsConfig {
                 match (c.roots, roots_variant) {
                     (Roots::Right, 0) => tls.ca_certificate(Certificate::from_pem(CA_A)),
                     (Roots::Right, 1) => tls.ca_certificates(vec![Certificate::from_pem(CA_A)]),
-                    (Roots::Right, _) => tls.ca_certificates(vec![Certificate::from_pem(CA_B), Certificate::from_pem(CA_A)]),
+                    (Roots::Right, 2) => tls.ca_certificates(vec![Certificate::from_pem(CA_B), Certificate::from_pem(CA_A)]),
+                    // a CA *bundle*: several certificates in one PEM, the right one not first
+                    (Roots::Right, _) => tls.ca_certificate(Certificate::from_pem(format!("{CA_B}\n{CA_A}"))),
                     (Roots::Other, 0) => tls.ca_certificate(Certificate::from_pem(CA_B)),
                     (Roots::Other, 1) => tls.ca_certificates(vec![Certificate::from_pem(CA_B)]),
                     (Roots::Other, _) => tls.ca_certificate(Certificate::from_pem(CA_C)).ca_certificate(Certificate::from_pem(CA_B)),
